@@ -115,6 +115,18 @@ pub fn gen_model(rng: &mut Rng, kind: ModelKind, max_m: usize, max_p: usize) -> 
         if !ok || !cover.is_empty() {
             continue;
         }
+        // rank-deficient corner: occasionally repeat a basis function (identical columns)
+        if rng.chance(0.04) && funcs.len() < max_m.max(2) {
+            let j = rng.usize_in(0, funcs.len() - 1);
+            let f = funcs[j].clone();
+            funcs.push(f);
+            return ModelSpec {
+                kind,
+                funcs,
+                nparams: p,
+                store_then_fail: rng.chance(0.5),
+            };
+        }
         // reject identical columns
         let mut dup = false;
         for a in 0..funcs.len() {
@@ -434,9 +446,11 @@ pub fn base_scenario(
     let n = rng.usize_in(n_lo.max(2), sizes.max_n.max(n_lo + 1));
     let wk = pick_weight_kind(rng);
     let d = gen_data(rng, &model, width, n, s, noise_rel, start, wk);
-    let eps = match rng.below(6) {
+    let eps = match rng.below(8) {
         0 => Some(Fx(rw(width, rng.log_uniform(-10.0, -3.0)))),
         1 => Some(Fx(rw(width, -rng.log_uniform(-10.0, -3.0)))),
+        // coarse thresholds that truncate real singular values of the weighted basis
+        2 => Some(Fx(rw(width, rng.log_uniform(-2.5, 0.5)))),
         _ => None,
     };
     let sc = Scenario {
